@@ -1,3 +1,4 @@
 import TurVerif.Model.Varint
 import TurVerif.Model.KeyEnc
 import TurVerif.Model.KeyEncJson
+import TurVerif.Model.Simd
